@@ -41,7 +41,7 @@ ASSUMPTIONS = [
 
 ENV = "ISODATETIMECALENDAR"
 YEARS = [1999, 2000, 2001, 2003, 2004, 2005, 2019, 2020, 2021, 2024, 2100,
-         1900, 0, -1, 4, 1]
+         1900, 0, 0, -1, 4, 1, -4]
 CONV = ["get_ordinal_date_from_calendar_date", "get_calendar_date_from_ordinal_date",
         "get_week_date_from_calendar_date", "get_week_date_from_ordinal_date",
         "get_calendar_date_from_week_date", "get_ordinal_date_from_week_date"]
@@ -332,7 +332,8 @@ def check_case(case):
 
 SPELL = st.sampled_from(R.MODE_SPELLINGS)
 Y = st.sampled_from(YEARS)
-Fr = st.one_of(st.integers(0, 400), st.sampled_from([0, 58, 59, 60, 364, 365]))
+Fr = st.one_of(st.integers(0, 400), st.sampled_from([0, 1, 1, 13, 58, 59, 60, 364,
+                                                     365]))
 REP = st.sampled_from("cow")
 
 
